@@ -211,6 +211,79 @@ def evalRC (a : AEnv) : RC → Option Bool
   | .decl v ty k => evalRC { a with vars := (v, ty) :: a.vars } k
   | _ => none
 
+/-! ### round 5: `begin` — what `b(conn)` stands for -/
+
+structure BSt where
+  log      : List Ev := []
+  err      : Option Err := none
+  tx       : Bool := false        -- a non-nil transaction is handed back
+  returned : Bool := false
+  stuck    : Bool := false
+  deriving Repr
+
+/-- meaning of the control-flow term of `begin`: ONE `db.Begin()` (inside it the attempts database/sql retries
+on driver.ErrBadConn, as for `b(conn)` in `assign`), `if err != nil { return nil, err }`, else the session around
+the new Tx with a nil error; anything else — a second `db.Begin()`, `BeginTx`, a changed guard — is `stuck`. -/
+def runBegin (f : Faults) : Blk → BSt → BSt
+  | .done, s => s
+  | .assignErr (.call "db.Begin()") k, s =>
+    if s.returned || s.stuck then s
+    else if s.log ≠ [] then { s with stuck := true }       -- Begin is called once
+    else if f.givesUp then
+      runBegin f k { s with log := badPrefix maxBeginAttempts [], err := some (Err.of .badConn) }
+    else runBegin f k { s with log := badPrefix f.badConn [.begin f.begin],
+                               err := if f.begin then none else some (Err.of .begin) }
+  | .ifc "" "err != nil" thn els k, s =>
+    if s.returned || s.stuck then s
+    else if s.err.isSome then runBegin f k (runBegin f thn s) else runBegin f k (runBegin f els s)
+  | .other "return nil, err" _, s => if s.returned || s.stuck then s else { s with returned := true, tx := false }
+  | .other "return txSession{ Tx: tx, }, nil" _, s =>
+    if s.returned || s.stuck then s else { s with returned := true, tx := true, err := none }
+  | _, s => { s with stuck := true }
+
+/-! ### round 5: what travels down the path (typed forwarding terms `Fwd`) -/
+
+/-- the values the hops of the path hand on: the caller's context `c` (wrapping it in a span keeps its Done /
+Err / values: still `c`), the background context, the caller's body `f` (as given, or adapted from
+`func(Session) error` by a literal that drops the context and passes the session on), and the connection's parts -/
+inductive V
+  | ctx (c : Nat)
+  | bgCtx
+  | body (f : Nat) (ctxless : Bool)
+  | conn | beginFn | acceptFn | db | thunk | tx
+  | val (n : Nat)                     -- any other argument (query text, destination, arguments), by identity
+  | unknown
+  deriving DecidableEq, Repr
+
+/-- meaning of one forwarded argument, given the values of the enclosing function's parameters -/
+def evalArg (actuals : List V) : Arg → V
+  | .param i => actuals.getD i .unknown
+  | .rebound i rhs =>
+    -- the only re-binding the path knows: ctx, span := startSpan(ctx, …) — a child of the same context
+    match actuals.getD i .unknown with
+    | .ctx c => if rhs.startsWith "startSpan(ctx, " then .ctx c else .unknown
+    | .bgCtx => if rhs.startsWith "startSpan(ctx, " then .bgCtx else .unknown
+    | _ => .unknown
+  | .bg => .bgCtx
+  | .recvField "db.beginTx" => .beginFn
+  | .recvField "db.acceptable" => .acceptFn
+  | .recvField "t.Tx" => .tx               -- the session's own transaction
+  | .recvField _ => .unknown
+  | .recv => .db
+  | .local "conn" => .conn
+  | .local "tx" => .tx
+  | .local _ => .unknown
+  | .adapt 2 k [1] =>
+    -- func(_ context.Context, session Session) error { return fn(session) }: the caller's ctx-less body
+    match actuals.getD k .unknown with
+    | .body f false => .body f true
+    | _ => .unknown
+  | .adapt _ _ _ => .unknown
+  | .thunk => .thunk
+  | .other _ => .unknown
+
+def evalFwd (h : Fwd) (actuals : List V) : List V := h.args.map (evalArg actuals)
+
 /-- `transactOnConn` as pinned when this check was built (completion of the body is inferred from
 `recover() != nil` alone) -/
 def pinnedBlk : Blk :=
